@@ -115,6 +115,11 @@ def eval_term(M, rho, term, limit=2_000_000):
         n *= len(r)
     if n > limit:
         raise OverflowError(f"{n} assignments")
+    global _BUDGET
+    if _BUDGET is not None:
+        _BUDGET -= n * max(1, len(objs))
+        if _BUDGET < 0:
+            raise OverflowError("work budget of the falsifier exhausted")
     total = Fraction(0)
     rho = dict(rho)
     for asg in itertools.product(*ranges):
@@ -153,8 +158,14 @@ def random_assignment(M, free, rng):
     return rho
 
 
-def find_difference(e1, e2, seeds=(0, 1, 2), n_assign=6, extra_laws=None, orbs=None, scale=Fraction(1)):
-    """look for (model seed, assignment) with eval(e1) != scale*eval(e2); returns dict or None"""
+_BUDGET = None
+
+
+def find_difference(e1, e2, seeds=(0, 1, 2), n_assign=6, extra_laws=None, orbs=None, scale=Fraction(1), budget=2_000_000):
+    """look for (model seed, assignment) with eval(e1) != scale*eval(e2); returns dict or None.
+    budget: bound on the total number of (assignment x object) evaluations of this call"""
+    global _BUDGET
+    _BUDGET = budget
     free = sorted(set(free_indices(e1)) | set(free_indices(e2)))
     for s in seeds:
         M = TensorModel(seed=s, extra_laws=extra_laws, orbs=orbs)
